@@ -1046,8 +1046,10 @@ func main() {
 				encCase(g, o)
 			case 3, 17:
 				jencCase(g, o)
-			case 4, 5, 6, 18:
+			case 4, 5, 6:
 				decCase(g, o, scratch)
+			case 18:
+				autoCase(g, o, scratch)
 			case 7:
 				jdecCase(g, o, scratch)
 			case 8, 9, 10, 16:
@@ -1055,6 +1057,7 @@ func main() {
 			case 11:
 				jescCase(g, o)
 				chunkCase(g, o)
+				tcCase(g, o)
 			case 12:
 				diaCase(g, o, scratch)
 			case 13:
